@@ -147,6 +147,7 @@ func (p *resultsPrinter) PrintResults(matchingNodes *list.List) error {
 		}
 
 		p.previousDocIndex = mappedDoc.GetDocument()
+		p.previousFileIndex = mappedDoc.GetFileIndex()
 		if err := writer.Flush(); err != nil {
 			return err
 		}
